@@ -67,7 +67,49 @@ def extract() -> dict[str, Any]:
                 out["rateLimitPrefix"] = vals[0].value
                 out["rateLimitSuffix"] = vals[2].value
                 out["rateLimitHole"] = ast.unparse(vals[1].value)
+    out.update(extract_chain_order())
     return out
+
+
+def extract_chain_order() -> dict[str, Any]:
+    """the order in which start_server appends components to the middleware chain: for every
+    `middlewares.append(x)` the class whose constructor call was assigned to `x` (source order = run order: the
+    appends sit in consecutive top-level `if` blocks of start_server, not in loops)"""
+    src = core.REPO / "src" / "nauyaca" / "server" / "server.py"
+    try:
+        t = ast.parse(src.read_text())
+    except Exception:  # noqa: BLE001
+        return {}
+    f = _func(t, None, "start_server")
+    if f is None:
+        return {}
+    ctor: dict[str, str] = {}
+    order: list[str] = []
+    nested = False
+
+    def visit(node, depth_loop):
+        nonlocal nested
+        for ch in ast.iter_child_nodes(node):
+            if isinstance(ch, ast.Assign) and len(ch.targets) == 1 and isinstance(ch.targets[0], ast.Name) and isinstance(ch.value, ast.Call):
+                fn = ch.value.func
+                ctor[ch.targets[0].id] = getattr(fn, "id", getattr(fn, "attr", "?"))
+            if isinstance(ch, ast.Call) and isinstance(ch.func, ast.Attribute) and ch.func.attr in ("append", "insert", "extend") \
+                    and isinstance(ch.func.value, ast.Name) and ch.func.value.id == "middlewares":
+                if ch.func.attr != "append" or depth_loop or len(ch.args) != 1:
+                    nested = True
+                a = ch.args[0] if ch.args else None
+                if isinstance(a, ast.Name):
+                    order.append(ctor.get(a.id, "?" + a.id))
+                elif isinstance(a, ast.Call):
+                    order.append(getattr(a.func, "id", getattr(a.func, "attr", "?")))
+                else:
+                    order.append("?")
+            visit(ch, depth_loop or isinstance(ch, (ast.For, ast.While, ast.AsyncFor)))
+
+    visit(f, False)
+    if nested or not order:
+        return {}
+    return {"chainOrder": order}
 
 
 def render(items: dict[str, Any]) -> str:
@@ -81,6 +123,8 @@ def render(items: dict[str, Any]) -> str:
     for k in ("rateLimitPrefix", "rateLimitSuffix", "rateLimitHole"):
         v = items.get(k)
         lines.append(f"def {k} : List Nat := {lean_str(v)}" if v is not None else f"-- {k}: NOT FOUND")
+    v = items.get("chainOrder")
+    lines.append("def chainOrder : List (List Nat) := [" + ", ".join(lean_str(x) for x in v) + "]" if v is not None else "-- chainOrder: NOT FOUND")
     lines.append("end NauyacaVerif.Gen")
     return "\n".join(lines) + "\n"
 
